@@ -629,3 +629,23 @@ Proof.
   intros Hnd Hlt H. pose proof (remap_accepted n mapping Hnd Hlt t [] (Forall_nil _) H) as H'.
   split; [exact H'|]. exact (steps_valid_batch mapping n _ H').
 Qed.
+
+(* =====================================================================================
+   TypiClust as written: the recorded findings are theorems about the model
+   ===================================================================================== *)
+(* 4 samples, sample 0 labeled (its cluster 0 is covered), candidates 1,2,3 all in cluster 1:
+   after the first pick every cluster is covered, typicality is all ones and the unmasked
+   rand_argmax returns an earlier pick again *)
+Example typiclust_duplicates_refuted :
+  exists picks, option_map (map fst)
+    (typiclust 4 [1; 2; 3]%nat [0; 1; 1; 1]%nat (fun c j => 5) 1 (-1) 2 [0; 3] [1; 1; 9; 1; 1; 9; 1; 1; 9; 1; 1]) = Some picks
+  /\ ~ NoDup picks.
+Proof.
+  eexists. split; [vm_compute; reflexivity|].
+  intros H. inversion H as [|? ? Hn _]; subst. apply Hn. left. reflexivity.
+Qed.
+
+(* every cluster covered from the start: `cluster_sizes[cluster_id] = 0` has no cluster_id *)
+Example typiclust_unbound_refuted :
+  typiclust 3 [1; 2]%nat [0; 0; 0]%nat (fun c j => 5) 1 (-1) 1 [0; 0] [1; 1; 1; 1] = None.
+Proof. vm_compute. reflexivity. Qed.
